@@ -234,6 +234,11 @@ func (e *SpecEnv) eval(ex Expr) Val {
 		ch.vars[n.Name] = e.eval(n.Val)
 		return ch.eval(n.Body)
 	case *SelE:
+		if id, ok := n.X.(*Ident); ok {
+			if v, ok := e.qualified(id.Name, n.Name); ok {
+				return v
+			}
+		}
 		return e.sel(e.eval(n.X), n.Name)
 	case *IndexE:
 		return e.index(e.eval(n.X), e.eval(n.I))
@@ -319,6 +324,45 @@ func (e *SpecEnv) ident(name string) Val {
 	}
 	bail("spec: unknown identifier %q", name)
 	return nil
+}
+
+// qualified resolves pkg.Name for a package imported by the function's package (package-level
+// variables and constants), unless pkg is a local name.
+func (e *SpecEnv) qualified(pkgName, name string) (Val, bool) {
+	if _, shadow := e.vars[pkgName]; shadow || e.fn == nil {
+		return nil, false
+	}
+	if e.fr != nil {
+		if _, isParam := e.fr.params[pkgName]; isParam {
+			return nil, false
+		}
+		if e.findCell(pkgName) != nil {
+			return nil, false
+		}
+	}
+	p := pkgOf(e.fn)
+	if p == nil {
+		return nil, false
+	}
+	for pass := 0; pass < 2; pass++ {
+		for _, imp := range p.Pkg.Imports() {
+			if (pass == 0 && imp.Name() != pkgName) || (pass == 1 && !strings.HasSuffix(pkgName, imp.Name())) {
+				continue
+			}
+			sp := e.x.prog.Package(imp)
+			if sp == nil {
+				continue
+			}
+			switch m := sp.Members[name].(type) {
+			case *ssa.NamedConst:
+				return Term{constTerm(e.x.reg, m.Value.Value, m.Type()), m.Type()}, true
+			case *ssa.Global:
+				c := e.x.globalCell(e.st, m)
+				return e.st.cells[c], true
+			}
+		}
+	}
+	return nil, false
 }
 
 func pkgOf(fn *ssa.Function) *ssa.Package {
